@@ -1,6 +1,7 @@
 package main
 
 import (
+	"encoding/json"
 	"context"
 	"fmt"
 	"io/fs"
@@ -679,14 +680,16 @@ func (run *bRun) canon(w *BWorld) string {
 		return strings.Join(xs, ",")
 	}
 	if run.poisoned || run.bundle == nil {
-		return fmt.Sprintf("%s %s - - - - %s %s", res, logs, enc(an), B(run.poisoned))
+		return fmt.Sprintf("%s %s - - - - %s %s - -", res, logs, enc(an), B(run.poisoned))
 	}
 	b := run.bundle
 	var dirs, metas, resolved, deps []string
+	root := ""
 	for _, p := range b.RemotePackages() {
 		lp, err := b.LocalPathForRemoteSource(p.SourceAddr(""))
 		content := "?"
 		if err == nil {
+			root = filepath.Dir(lp)
 			if c, err := os.ReadFile(filepath.Join(lp, "content.id")); err == nil {
 				content = string(c)
 			}
@@ -711,5 +714,34 @@ func (run *bRun) canon(w *BWorld) string {
 			}
 		}
 	}
-	return fmt.Sprintf("%s %s %s %s %s %s %s %s", res, logs, enc(dirs), enc(metas), enc(resolved), enc(deps), enc(an), B(false))
+	// row order of the manifest file as written (packages and registry arrays)
+	pkgOrder, regOrder := "-", "-"
+	if root != "" {
+		var mf struct {
+			Packages []struct {
+				Source string `json:"source"`
+			} `json:"packages"`
+			Registry []struct {
+				Source string `json:"source"`
+			} `json:"registry"`
+		}
+		if raw, err := os.ReadFile(filepath.Join(root, "terraform-sources.json")); err == nil && json.Unmarshal(raw, &mf) == nil {
+			var po, ro []string
+			for _, p := range mf.Packages {
+				po = append(po, X(p.Source))
+			}
+			for _, r := range mf.Registry {
+				ro = append(ro, X(r.Source))
+			}
+			if len(po) > 0 {
+				pkgOrder = strings.Join(po, ",")
+			}
+			if len(ro) > 0 {
+				regOrder = strings.Join(ro, ",")
+			}
+		} else {
+			pkgOrder, regOrder = "unreadable", "unreadable"
+		}
+	}
+	return fmt.Sprintf("%s %s %s %s %s %s %s %s %s %s", res, logs, enc(dirs), enc(metas), enc(resolved), enc(deps), enc(an), B(false), pkgOrder, regOrder)
 }
